@@ -1,5 +1,7 @@
 """Binding of Section.tla / SectionAlgo.tla to real lasio.SectionItems objects."""
 import json
+
+import numpy as np
 import random
 from collections import deque
 
@@ -45,8 +47,18 @@ class Real(object):
         out = []
         for it in list.__iter__(self.sec):
             v = it.value
-            out.append({"id": self.ident(it), "o": it.original_mnemonic, "s": it.mnemonic,
-                        "v": 1 if (v == 1 and not isinstance(v, bool)) else 0})
+            vc = 1 if (v == 1 and not isinstance(v, bool)) else 0
+            # a curve's samples are part of what "the item's value" means for the frame clauses: the class moves by 10 as soon as
+            # the array differs from what it was when the item was first seen
+            d = getattr(it, "data", None)
+            try:
+                key = None if d is None else (str(np.asarray(d).dtype), np.asarray(d).tobytes())
+            except Exception:
+                key = repr(d)
+            data0 = self.__dict__.setdefault("data0", {})
+            if data0.setdefault(id(it), key) != key:
+                vc += 10
+            out.append({"id": self.ident(it), "o": it.original_mnemonic, "s": it.mnemonic, "v": vc})
         return out
 
     def apply(self, e):
